@@ -2864,6 +2864,7 @@ let as_kv s v =
 type variant =
 | New
 | Old
+| PopInPlace
 
 (** val idict_of_seq : store -> pyval list -> (pyval * store) result **)
 
@@ -2884,11 +2885,46 @@ let idict_init var s = function
      (match c with
       | PyDict it ->
         (match var with
-         | New -> let (h', s') = alloc s (PyDict it) in Ok ((VIDict h'), s')
-         | Old -> Ok ((VIDict h), s))
+         | Old -> Ok ((VIDict h), s)
+         | _ -> let (h', s') = alloc s (PyDict it) in Ok ((VIDict h'), s'))
       | PyList l -> idict_of_seq s l)
    | None -> Err ETypeError)
 | _ -> Err ETypeError
+
+(** val popped : atom -> (atom * 'a1) list -> 'a1 -> 'a1 **)
+
+let popped k it dflt =
+  match assoc k it with
+  | Some x -> x
+  | None -> dflt
+
+(** val copy_pop :
+    variant -> nat -> store -> pyval -> atom -> ((pyval * pyval) * store)
+    result **)
+
+let copy_pop var f s v k =
+  match v with
+  | VIDict h ->
+    (match lookup s h with
+     | Some c ->
+       (match c with
+        | PyDict it ->
+          (match var with
+           | PopInPlace ->
+             Ok (((popped k it VNone), (VIDict h)),
+               (update s h (PyDict (dict_del k it))))
+           | _ ->
+             (match deepcopy f s (VIDict h) with
+              | Some p ->
+                (match p with
+                 | VOMap (_, kvs) ->
+                   let (h', s') = alloc s (PyDict (dict_del k kvs)) in
+                   Ok (((popped k kvs VNone), (VIDict h')), s')
+                 | _ -> Err EOutOfFuel)
+              | None -> Err EOutOfFuel))
+        | PyList _ -> Err ETypeError)
+     | None -> Err ETypeError)
+  | _ -> Err ETypeError
 
 (** val tuplify : store -> pyval -> pyval result **)
 
@@ -3297,10 +3333,10 @@ let xH_KEY =
               false)), EmptyString)))))))))))))))))))))))))))
 
 (** val post_revision :
-    nat -> bytes -> field_row list -> pyval list -> store -> (pyval
-    list * store) result **)
+    variant -> nat -> bytes -> field_row list -> pyval list -> store ->
+    (pyval list * store) result **)
 
-let post_revision f cls rows vals s =
+let post_revision var f cls rows vals s =
   if negb
        (beqb cls
          (bs (String ((Ascii (false, true, false, false, true, false, true,
@@ -3329,29 +3365,21 @@ let post_revision f cls rows vals s =
                          (match c with
                           | PyDict it ->
                             (match assoc xH_KEY it with
-                             | Some xh ->
-                               (match deepcopy f s (VIDict hm) with
-                                | Some p1 ->
-                                  (match p1 with
-                                   | VOMap (_, kvs) ->
-                                     (match deepcopy f s xh with
-                                      | Some xh' ->
-                                        (match tuplify s xh' with
-                                         | Ok t ->
-                                           if atom_pairs t
-                                           then let (h', s') =
-                                                  alloc s (PyDict
-                                                    (dict_del xH_KEY kvs))
-                                                in
-                                                Ok
-                                                ((set_field k_XH t rows
-                                                   (set_field k_META (VIDict
-                                                     h') rows vals)), s')
-                                           else Err ETypeError
-                                         | Err e -> Err e)
-                                      | None -> Err EOutOfFuel)
-                                   | _ -> Err EOutOfFuel)
-                                | None -> Err EOutOfFuel)
+                             | Some _ ->
+                               (match copy_pop var f s (VIDict hm) xH_KEY with
+                                | Ok a ->
+                                  let (p1, s') = a in
+                                  let (xh', md) = p1 in
+                                  (match tuplify s' xh' with
+                                   | Ok t ->
+                                     if atom_pairs t
+                                     then Ok
+                                            ((set_field k_XH t rows
+                                               (set_field k_META md rows vals)),
+                                            s')
+                                     else Err ETypeError
+                                   | Err e -> Err e)
+                                | Err e -> Err e)
                              | None -> Ok (vals, s))
                           | PyList _ -> Ok (vals, s))
                        | None -> Ok (vals, s))
@@ -3378,8 +3406,8 @@ let construct hid var f rt cls s args =
           (match conv_fields var f rt cls rows args s with
            | Ok a ->
              let (vals, s1) = a in
-             (match post_revision f cls rows (post_id hid f cls rows vals s1)
-                      s1 with
+             (match post_revision var f cls rows
+                      (post_id hid f cls rows vals s1) s1 with
               | Ok a0 -> let (vals', s2) = a0 in Ok ((VObj (cls, vals')), s2)
               | Err e -> Err e)
            | Err e -> Err e)
@@ -3504,29 +3532,41 @@ let obj_mutate s o c =
 type step =
 | SMut of mut
 | SChan of channel
+| SCopyPop of atom
 
 (** val run_steps :
-    (rval -> atom) -> (rval -> n) -> nat -> store -> pyval -> step list ->
-    (err option * observation) list **)
+    (rval -> atom) -> (rval -> n) -> variant -> nat -> store -> pyval -> step
+    list -> (err option * observation) list * store **)
 
-let rec run_steps hid hpy f s o = function
-| [] -> []
+let rec run_steps hid hpy var f s o = function
+| [] -> ([], s)
 | s0 :: r ->
   (match s0 with
    | SMut m ->
      let s' = apply_mut s m in
-     (None, (observe hid hpy f s' o)) :: (run_steps hid hpy f s' o r)
+     let (l, sf) = run_steps hid hpy var f s' o r in
+     (((None, (observe hid hpy f s' o)) :: l), sf)
    | SChan c ->
      let (p, o') = obj_mutate s o c in
      let (e, s') = p in
-     ((Some e), (observe hid hpy f s' o')) :: (run_steps hid hpy f s' o' r))
+     let (l, sf) = run_steps hid hpy var f s' o' r in
+     ((((Some e), (observe hid hpy f s' o')) :: l), sf)
+   | SCopyPop k ->
+     (match copy_pop var f s o k with
+      | Ok a ->
+        let (_, s') = a in
+        let (l, sf) = run_steps hid hpy var f s' o r in
+        (((None, (observe hid hpy f s' o)) :: l), sf)
+      | Err e ->
+        let (l, sf) = run_steps hid hpy var f s o r in
+        ((((Some e), (observe hid hpy f s o)) :: l), sf)))
 
 (** val run_script :
     (rval -> atom) -> (rval -> n) -> variant -> nat -> route -> bytes ->
-    store -> pyval list -> step list -> (observation * (err
-    option * observation) list) result **)
+    store -> pyval list -> step list -> pyval list -> (((observation * (err
+    option * observation) list) * observation list) * observation list) result **)
 
-let run_script hid hpy var f rt cls s args steps =
+let run_script hid hpy var f rt cls s args steps watch =
   match match rt with
         | Ctor -> construct hid var f Ctor cls s args
         | FromDict ->
@@ -3538,7 +3578,9 @@ let run_script hid hpy var f rt cls s args steps =
               | _ :: _ -> Err ETypeError)) with
   | Ok a ->
     let (o, s1) = a in
-    Ok ((observe hid hpy f s1 o), (run_steps hid hpy f s1 o steps))
+    let (l, sf) = run_steps hid hpy var f s1 o steps in
+    Ok ((((observe hid hpy f s1 o), l), (map (observe hid hpy f s) watch)),
+    (map (observe hid hpy f sf) watch))
   | Err e -> Err e
 
 (** val run_twins :
